@@ -31,7 +31,7 @@ RULE = ('engine A: case = 2..3 sessions x 1..4 requests each (whole-vector write
         'reads of it, writes/reads of a private tag, bundles of those) + a schedule of <= 5 preemptions (run k events, switch to '
         'thread t) at call/line granularity; non-trivial = at least one preemption took effect inside another session\'s parse or '
         'request processing and a shared-range write overlaps a read in the recorded history.  engine B: case = one stress round '
-        'of 8 real client threads x 30 requests over TCP')
+        'of 8 real client threads x 30 requests over TCP, every tenth followed by a pipelined pair (private write + read of it in one segment)')
 ASSUMPTIONS = [
     'engine A explores a bounded set of interleavings at call/line granularity (preemption bounding); races inside a single '
     'line / C call are not split; it cannot show the absence of races',
@@ -468,6 +468,7 @@ def stress_round(job):
     plock = threading.Lock()
     seen_max = {}
     handles = []
+    pipelined = []
     barrier = threading.Barrier(nthreads)
 
     def client(i):
@@ -538,6 +539,38 @@ def stress_round(job):
                 if out['encap']['session'] != sess.handle or out['encap']['context'] != out['context']:
                     with plock:
                         problems.append(('tcp:reply-carries-foreign-context-or-handle', {'thread': i}))
+                if k % 10 == 5:
+                    # a session may issue its next request without awaiting the reply: a private write and the read of it delivered
+                    # in one segment, while the other sessions keep the server's threads busy; each must be answered, in order.  A
+                    # reply that has not arrived after 3 s is only called missing once a later request of the session was answered.
+                    own = [token(i, 1000 + k)] * 8
+                    ctxs = [sess.context(), sess.context()]
+                    pair = [rc.req_write_tag([{'symbolic': 'Q%d' % i}], 'DINT', own), rc.req_read_tag([{'symbolic': 'Q%d' % i}], 8)]
+                    sess.sock.sendall(b''.join(rc.rr_frame(sess.handle, rc.unconnected_send(m), c) for m, c in zip(pair, ctxs)))
+                    frames, left, eof = sim.recv_frames(sess.sock, 2, 3.0)
+                    if len(frames) < 2 and not eof:
+                        ctxs.append(sess.context())
+                        sess.sock.sendall(rc.rr_frame(sess.handle, rc.unconnected_send(pair[1]), ctxs[2]))
+                        more, left, eof = sim.recv_frames(sess.sock, 1, sess.timeout)
+                        frames = frames + more
+                    got = [rc.dec_encap(f)['context'] for f in frames]
+                    pipelined.append(k)
+                    if got[:2] != ctxs[:2]:
+                        if len(ctxs) == 3 and ctxs[2] in got and got != ctxs:
+                            with plock:
+                                problems.append(('tcp:pipelined-request-unanswered-or-out-of-order', {'thread': i, 'k': k, 'sent': [c.hex() for c in ctxs], 'answered': [c.hex() for c in got]}))
+                        elif eof:
+                            with plock:
+                                problems.append(('tcp:request-failed-under-concurrency', {'thread': i, 'k': k, 'outcome': 'closed after pipelined pair', 'enip_status': None, 'reply': None}))
+                        else:
+                            with plock:
+                                problems.append(('HARNESS', 'timeout'))
+                        return
+                    rds = [rc.dec_mr_reply(rc.dec_rr_reply(f)[1]) for f in frames[:2]]
+                    if rds[0]['status'] != 0 or rds[1]['status'] != 0 or rc.dec_read_reply(rds[1], 'DINT')[1] != own:
+                        with plock:
+                            problems.append(('tcp:pipelined-pair-wrong-replies', {'thread': i, 'k': k, 'status': [r['status'] for r in rds]}))
+                        return
             sess.close()
         except (rc.RefDecodeError, IndexError, KeyError, ValueError) as exc:
             with plock:
@@ -588,6 +621,7 @@ def stress_round(job):
     s.case(case, nontrivial=True, classes=['engineB:round'])
     s.count('engineB:requests', nthreads * nreq)
     s.count('engineB:unparsable-requests-from-hostile-sessions', sum(hostile_count))
+    s.count('engineB:pipelined-pairs', len(pipelined))
     if len(handles) == 3 * nthreads and len(set(handles)) != len(handles):
         problems.append(('tcp:sessions-open-at-once-share-a-session-handle', {'handles': sorted(handles)[:12]}))
     for sig, d in problems:
